@@ -208,6 +208,12 @@ func runC15(t *testing.T, c Case) (res Result) {
 // ops: K="op" A=[startMs, holdMs] (Begin..Cease), K="wait" A=[startMs]
 func genC17(seed uint64, tier string) Case {
 	r := newRng(seed, "c17")
+	if r.chance(1, 3) {
+		// server part: the lifecycle workload of C16, judged only on termination
+		c := genC16(seed, tier, "C17")
+		c.Cfg["server"] = 1
+		return c
+	}
 	c := Case{Prop: "C17", Seed: seed}
 	nOps := 1 + r.intn(4)
 	for i := 0; i < nOps; i++ {
@@ -225,6 +231,9 @@ func genC17(seed uint64, tier string) Case {
 }
 
 func runC17(t *testing.T, c Case) (res Result) {
+	if c.cfg("server", 0) == 1 {
+		return runC16(t, c)
+	}
 	var blockedWaiters []int
 	waiterParkedDuringOp := false
 	out := runSim(t, c.Sched, func() {
